@@ -209,7 +209,11 @@ impl<'a> Exec<'a> {
         let announced = std::mem::take(&mut self.conns[c].announced);
         let ipv = if v6 { IpVersion::V6 } else { IpVersion::V4 };
         for (ih, pid) in &announced {
-            self.maps.handle_connection_closed(InfoHash(*ih), PeerId(*pid), ipv, ConsumerId(w), id);
+            let maps = &mut self.maps;
+            if let Err(msg) = catch(|| maps.handle_connection_closed(InfoHash(*ih), PeerId(*pid), ipv, ConsumerId(w), id)) {
+                self.fail(&["C12", "C08"], "close-panic", "close-panic", format!("handle_connection_closed panicked: {}", msg));
+                return;
+            }
         }
         stats.evaluations += 1;
         // model: remove exactly the entries this connection created
@@ -257,7 +261,11 @@ impl<'a> Exec<'a> {
             let mut out = Vec::new();
             let req = ScrapeRequest { action: ScrapeAction::Scrape, info_hashes: Some(ScrapeRequestInfoHashes::Multiple(chunk.iter().map(|h| InfoHash(*h)).collect())) };
             let cfg = self.config.clone();
-            self.maps.handle_scrape_request(&cfg, &mut out, meta, req);
+            let maps = &mut self.maps;
+            if let Err(msg) = catch(|| maps.handle_scrape_request(&cfg, &mut out, meta, req)) {
+                self.fail(&["C12", "C08"], "scrape-panic", "scrape-panic", format!("handle_scrape_request panicked: {}", msg));
+                break;
+            }
             stats.evaluations += 1;
             self.judge_scrape(c, v6, chunk, &out, props, check, sig);
             if !self.violations.is_empty() {
@@ -585,7 +593,11 @@ impl<'a> Exec<'a> {
         let meta = self.meta(c, true);
         let mut out = Vec::new();
         let cfg = self.config.clone();
-        self.maps.handle_scrape_request(&cfg, &mut out, meta, req);
+        let maps = &mut self.maps;
+        if let Err(msg) = catch(|| maps.handle_scrape_request(&cfg, &mut out, meta, req)) {
+            self.fail(&["C12", "C08"], "scrape-panic", "scrape-panic", format!("handle_scrape_request panicked: {}", msg));
+            return;
+        }
         stats.evaluations += 1;
         match hashes {
             None => {
